@@ -248,7 +248,7 @@ fn evaluate(confs: &[Conf], b: &BuildOut, stats: &mut EvalStats, only: Option<&(
         let patch = target.map(|i| (live[i].name.clone(), hex::encode(&bytes)));
         match run_script(&code) {
             Err(e) => out.push(Finding {
-                key: format!("vm-setup-error|{shape}"),
+                key: "vm-setup-error".to_string(),
                 what: e.clone(), patch, expect_logs: expect_hex, observed: e,
             }),
             Ok(r) => {
@@ -273,7 +273,7 @@ fn evaluate(confs: &[Conf], b: &BuildOut, stats: &mut EvalStats, only: Option<&(
                         }
                     };
                     out.push(Finding {
-                        key: format!("{kind}|{tyc}|{shape}"),
+                        key: format!("{kind}|{tyc}"),
                         what: format!(
                             "configurables {:?}, offsets {:?}, patch {:?}: expected logs {:?}, observed {:?} state {}",
                             confs.iter().map(|c| format!("{}:{}{}", c.name, c.ty.sway(), if c.live { "" } else { "(dead)" })).collect::<Vec<_>>(),
